@@ -298,6 +298,10 @@ class Interp:
                 return deref(self.ev(n["e"], env))
             if n["op"] == "!":
                 return not self.truth(self.ev(n["e"], env))
+            if n["op"] == "-":
+                v = deref(self.ev(n["e"], env))
+                if isinstance(v, int) and not isinstance(v, bool):
+                    return -v
             raise Unsupported("unary %s" % n["op"])
         if k == "block":
             e2 = env  # lexical shadowing is by bid, so sharing the dict is fine
@@ -338,6 +342,8 @@ class Interp:
                 return b.fields[n["name"]]
             if isinstance(b, Tuple):
                 return b.elems[int(n["name"])]
+            if n["name"] == "0" and isinstance(b, (int, str)):
+                return b                  # newtype wrappers (Vid, Eid, NonZeroUsize) are modelled by their payload
             raise Unsupported("field %s of %r" % (n["name"], b))
         if k == "path":
             dk = n.get("dk") or ""
@@ -413,6 +419,9 @@ class Interp:
         if k == "index":
             base = deref(self.ev(n["base"], env))
             idx = deref(self.ev(n["idx"], env))
+            f = self.inline(n.get("resolved") or "") if n.get("resolved") else None
+            if f is not None:
+                return self.call_fn(f, [base, idx])
             h = self.intr.get("index")
             if h is not None:
                 return h(self, n, [base, idx])
@@ -549,6 +558,11 @@ class Interp:
             else:
                 raise Unsupported("ordering of %r and %r" % (l, r))
             return {"<": a < b, "<=": a <= b, ">": a > b, ">=": a >= b}[op]
+        if op in ("+", "-", "*") and isinstance(l, int) and isinstance(r, int) and not isinstance(l, bool):
+            v = {"+": l + r, "-": l - r, "*": l * r}[op]
+            if v < 0:
+                raise PanicReached("arithmetic underflow")
+            return v
         raise Unsupported("binary %s" % op)
 
     def call(self, n, env):
